@@ -17,6 +17,11 @@ CPP_NAMESPACES = [
     "a_1::b2",
     "x::x",
     "outer::Outer",
+    # components spelled like the namespaces generated code refers to
+    "acme::emboss::proto",
+    "x::support",
+    "a::std::b",
+    "q::emboss_generated_code",
 ]
 
 # plain, harmless names
